@@ -175,6 +175,37 @@ def case1(line, expect, classes=(), desc="", only=None):
     return Case([line], [expect], classes, desc, only=only)
 
 
+# Equivalent operator forms: every std::ops trait implementation (value / reference operands, compound assignment by
+# value / by reference, scalar on the left) is a separate piece of code in crrl and must compute the same function.
+F_FORMS = {"add": ["add", "add_vr", "add_rv", "add_rr", "adda", "addav"], "sub": ["sub", "sub_vr", "sub_rv", "sub_rr", "suba", "subav"],
+           "mul": ["mul", "mul_vr", "mul_rv", "mul_rr", "mula", "mulav"], "div": ["div", "div_vr", "div_rv", "div_rr", "diva", "divav"],
+           "neg": ["neg", "negr"]}
+G_FORMS = {"add": ["add", "addr", "adda", "add_vr", "add_rv", "addav"], "sub": ["sub", "subr", "suba", "sub_vr", "sub_rv", "subav"],
+           "neg": ["neg", "negr"], "mul": ["mul", "smul", "mula", "mul_vr", "mul_rv", "mul_rr", "smul_vv", "smul_vr", "smul_rv", "mulav"],
+           "mulu64": ["mulu64", "u64mul", "mulu64a", "mulu64r", "u64mulr"]}
+for _d in (F_FORMS, G_FORMS):
+    for _k in list(_d):
+        for _v in _d[_k]:
+            _d.setdefault(_v, _d[_k])
+
+
+def vary_forms(cases, rng, p=0.6):
+    """Rewrite the operator token of field / group requests into a random equivalent form."""
+    for c in cases:
+        for i, ln in enumerate(c.lines):
+            t = ln.split(" ", 3)
+            if len(t) < 4 or t[0] not in ("f", "g"):
+                continue
+            forms = (F_FORMS if t[0] == "f" else G_FORMS).get(t[2])
+            if forms and rng.random() < p:
+                t[2] = rng.choice(forms)
+                c.lines[i] = " ".join(t)
+                cl = "opform:" + t[0] + ":" + t[2]
+                if cl not in c.classes:
+                    c.classes = c.classes + (cl,)
+    return cases
+
+
 def check_case(case, resps):
     """Return list of (index, got, why)."""
     bad = []
